@@ -18,12 +18,14 @@ FRAGS = [' ', '\t', '\n', '\r', '\f', 'f"', 'F"""', "fr'", "RF'''", '"', '"""', 
          'from ', 'pass', '(', ')', '[', ']', '{', '}', ':', ',', '=', '@', '    ', 'async ', 'await ', 'yield ', '﻿', 'x', '1']
 
 
-def edit(r, lines):
+def edit(r, lines, near_end=False):
     lines = list(lines)
     k = r.random()
     if not lines:
         return [r.choice(gens.VALID)]
     i = r.randrange(len(lines))
+    if near_end and r.random() < 0.6:
+        i = max(0, len(lines) - 1 - r.choice([0, 0, 1, 2]))
     if k < 0.2:
         del lines[i]
     elif k < 0.4:
@@ -48,10 +50,20 @@ def edit(r, lines):
     return split_lines(''.join(lines), keepends=True)
 
 
+TAILS = ['doc = """first\nsecond"""', "s = '''a\nb\nc'''", 's = "a\\\nb"', 'x = (1,\n     2)', 'f(a,\n  b)', 'x = [\n 1,\n 2]', 'y = f"""{a}\n{b}"""',
+         'z = 1 + \\\n    2', '"""module\ndoc"""', 'def g():\n    return """a\n    b"""', 'class K:\n    x = (1,\n         2)', "t = rb'''x\ny'''", 'if a:\n    b = {1:\n         2}']
+
+
 def gen_history(r):
     kind, code = gens.text_case(r.random(), 'c04-seed', 0, ['valid', 'corpus', 'oneliner', 'semantic'])
     from parso.utils import split_lines
     code = code[:3000]
+    tail_mode = r.random() < 0.25
+    if tail_mode:
+        # the file ends, without a final line break, in a statement whose last token or bracket spans several lines
+        if code and not code.endswith(('\n', '\r')):
+            code += '\n'
+        code = (code if r.random() < 0.7 else '') + r.choice(TAILS) + r.choice(['', '', '', ' ', '  # c'])
     nl = r.random()
     if nl < 0.25:
         code = code.replace('\r\n', '\n').replace('\n', '\r')        # classic Mac line breaks
@@ -66,7 +78,7 @@ def gen_history(r):
         else:
             saved.append(lines)
             for _ in range(r.choice([1, 1, 2, 4])):
-                lines = edit(r, lines)
+                lines = edit(r, lines, tail_mode)
         hist.append(''.join(lines))
     return hist
 
